@@ -193,8 +193,9 @@ type evRec struct {
 }
 
 type evLog struct {
-	mu   sync.Mutex
-	recs []evRec
+	mu    sync.Mutex
+	recs  []evRec
+	noGid bool // single-goroutine use: do not pay for the goroutine id (it walks the stack)
 }
 
 func (l *evLog) add(e evRec) {
@@ -206,7 +207,11 @@ func (l *evLog) add(e evRec) {
 
 func (l *evLog) install() {
 	pongo2.VerifTracer = func(e pongo2.VerifEvent) {
-		l.add(evRec{Gid: goid(), Ev: e.Ev, A: e.A, B: e.B, C: e.C, D: e.D, S: e.S, T: e.T, P: uint64(e.P)})
+		gid := 0
+		if !l.noGid {
+			gid = goid()
+		}
+		l.add(evRec{Gid: gid, Ev: e.Ev, A: e.A, B: e.B, C: e.C, D: e.D, S: e.S, T: e.T, P: uint64(e.P)})
 	}
 }
 
